@@ -63,6 +63,15 @@ CLAIMS = {
   ref="DESIGN.md §4 C04, §9"),
 }
 
+NA = {
+ "C01": "per-key linearizability quantifies over concurrent histories of several clients and members; a function contract speaks about one call in one state, and this verifier has no model of goroutine interleavings or of several members (sync primitives are no-ops, the network is an assumed contract). The sequential ingredients it rests on are decided under other properties (C11 store semantics, C05 quorums, C09 expiry, C15 routing of options); the history-level statement itself is not expressible as a postcondition, invariant or lemma over those contracts, and no other technique is substituted.",
+ "C02": "durability under loss of up to R-1 members quantifies over fault sequences between operations of several members; contracts decide 'acknowledge only after WriteQuorum copies' (claimed under C05) and what a backup stores (C04), but the statement about which acknowledged writes survive which crash sequence needs a model of several members over time, outside contract-based verification of single calls.",
+ "C03": "rebalancing is a protocol between members driven by goroutines, timers and the network (fragment movers, ownership reports, deletion of stale copies); the per-call ingredients that are within reach are decided elsewhere (fragmentMergeFunction under C06, table export image under C11/C17, Import returning merge errors fixed earlier), but 'neither loses, duplicates nor resurrects keys' is a property of whole migration histories, not of one call.",
+ "C07": "atomicity of Incr/Decr/GetPut across clients is an interleaving property: it needs the lock taken on the partition owner to serialise read-modify-write sequences of different members. The verifier treats sync primitives as no-ops and has no notion of two members; the one sequential obligation in reach (Incr/Decr keep the expiry) is decided under C09. Reading the code shows the lock is member-local (atomicIncrDecr/getPut lock dm.s.locker of the calling member), which this technique cannot turn into a failing obligation.",
+ "C08": "mutual exclusion, lease expiry and fencing of the distributed lock are temporal properties over several clients; the lock is built from Put NX/PX and a token comparison, whose sequential semantics are decided under C09 and C15 (NX refuses a live key, treats an expired one as absent, options survive forwarding), but exclusion over time is not a postcondition of any single call.",
+ "C13": "agreement of all members on a valid, balanced routing table is about convergence of a distributed protocol (coordinator election from the member list, push of the table, ownership reports); helpers are under contract (GetCoordinator returns the oldest member, partition-table invariants, verifyRoutingTable's validation under C16), but agreement and balance across members and over time are not expressible over these contracts; the consistent-hash library is external.",
+}
+
 NA_DEFAULT = "contract-decidable core not yet under contract in this tree (engine and storage layers first); no other technique substituted"
 
 def main():
@@ -85,7 +94,7 @@ def main():
             "level_note": c['note'],
             "technique": TECH,
         })
-    na = [{"property_id": p['id'], "reason": NA_DEFAULT} for p in props if p['id'] not in CLAIMS]
+    na = [{"property_id": p['id'], "reason": NA.get(p['id'], NA_DEFAULT)} for p in props if p['id'] not in CLAIMS]
     m = {
         "version": 1,
         "setup_cmd": "./setup.sh",
